@@ -31,7 +31,33 @@ fn space_for(tier: Tier) -> Space {
     }
     s.list("flagstrings", 1 + 6 + 36, 64);
     s.list("whitespace under x", crate::checks::c07::xws_cases().len() as u64, 64);
+    s.list("escapes, all scalar values, both dialects", escape_list().len() as u64, 8);
     s
+}
+
+/// Every category, block and multi-character escape in both polarities (block names from
+/// the repository's own block files through the engine's table, plus PrivateUse): none of
+/// them contains `^` or `$`, so both dialects must give them the same member set.
+fn escape_list() -> &'static Vec<String> {
+    static LIST: std::sync::OnceLock<Vec<String>> = std::sync::OnceLock::new();
+    LIST.get_or_init(build_escape_list)
+}
+
+fn build_escape_list() -> Vec<String> {
+    let mut v: Vec<String> = vec![];
+    for c in crate::refparse::CATS {
+        v.push(format!("\\p{{{}}}", c));
+        v.push(format!("\\P{{{}}}", c));
+    }
+    for e in ["\\d", "\\D", "\\w", "\\W", "\\s", "\\S", "\\i", "\\I", "\\c", "\\C", ".", "[\\i-[:]]", "[^\\c]"] {
+        v.push(e.to_string());
+    }
+    let names = crate::ucd::Ucd::load().map(|u| u.block_names).unwrap_or_default();
+    for b in names.iter() {
+        v.push(format!("\\p{{Is{}}}", b));
+        v.push(format!("\\P{{Is{}}}", b));
+    }
+    v
 }
 
 fn flag_string(mut idx: u64) -> String {
@@ -107,6 +133,47 @@ impl Check for C17 {
                     }
                 }
                 out.sample(J::obj(vec![("pattern", J::s(text)), ("flags", J::s("x")), ("dialect", J::s("xsd"))]));
+            }
+            return;
+        }
+        if let SegKind::List { name: "escapes, all scalar values, both dialects" } = seg.kind {
+            let list = escape_list();
+            let hay: String = (0u32..0x110000).filter_map(char::from_u32).collect();
+            for i in lo..hi {
+                let text = &list[i as usize];
+                out.add("states", 2 * 1_112_064);
+                let left = |xsd: bool| -> Result<String, String> {
+                    match imp::compile(text, "", xsd) {
+                        Out::Ok(re) => match imp::with_fuel(400_000_000, || imp::replace_all(&re, &hay, "")) {
+                            Out::Ok(s) => Ok(s),
+                            o => Err(o.show()),
+                        },
+                        Out::Err(e) => Err(format!("Err({:?})", e)),
+                        o => Err(format!("{:?}", o.map(|_| ()))),
+                    }
+                };
+                let (a, b) = (left(false), left(true));
+                let case = Case::new(&scope_name, text, "").api("replace_all");
+                match (&a, &b) {
+                    (Ok(x), Ok(y)) => {
+                        out.add("validated", 2 * 1_112_064);
+                        out.inc("nontrivial");
+                        if x != y {
+                            let first = x.chars().zip(y.chars()).find(|(p, q)| p != q).map(|(p, q)| p.min(q)).or_else(|| x.chars().nth(y.chars().count())).or_else(|| y.chars().nth(x.chars().count()));
+                            out.fail("C17", &case.clone().input(&first.map(|c| c.to_string()).unwrap_or_default()), "DialectsDisagree", "the same members under Regex::xpath and Regex::xsd", &format!("first difference at U+{:04X}", first.map(|c| c as u32).unwrap_or(0)), "every scalar value");
+                        }
+                    }
+                    (Err(x), Err(y)) if x.starts_with("Err(") && y.starts_with("Err(") => out.inc("both_reject"),
+                    (Err(x), Err(y)) if !x.starts_with("Err(") && !y.starts_with("Err(") => out.inc("inconclusive_crash"),
+                    (x, y) => {
+                        let sh = |r: &Result<String, String>| match r {
+                            Ok(_) => "Ok".to_string(),
+                            Err(e) => e.clone(),
+                        };
+                        out.fail("C17", &case, "DialectsDisagree", "the same outcome under Regex::xpath and Regex::xsd", &format!("xpath {} / xsd {}", sh(x), sh(y)), "every scalar value");
+                    }
+                }
+                out.sample(J::obj(vec![("escape", J::s(text))]));
             }
             return;
         }
